@@ -36,7 +36,7 @@ KINDS = ["noise", "const", "zeros", "spike", "huge", "tiny", "unrelated", "templ
 def cases(tier, seed):
     rng = gen.rng_for(seed, PROP, tier)
     n = 260 if tier == "quick" else 5500
-    nl = 24 if tier == "quick" else 400
+    nl = 40 if tier == "quick" else 600
     out = []
     for i in range(n):
         model = ("ZNCC", "NCC", "PCC", "FSC")[int(rng.integers(0, 4))]
@@ -66,10 +66,12 @@ def cases(tier, seed):
                     "iseed": int(rng.integers(0, 2**31)), "cost": float(cost) * K})
     for i in range(nl):
         out.append({"kind": "loader", "model": ("ZNCC", "NCC", "PCC")[int(rng.integers(0, 3))],
-                    "entry": ("align", "multi", "group", "align-rot")[int(rng.integers(0, 4))],
+                    "entry": ("align", "multi", "group", "align-rot", "group-multi")[int(rng.integers(0, 5))],
                     "scale": float(rng.choice([1.0, 0.5, 1.7])),
                     "ms_form": ("scalar", "tuple", "array", "int")[int(rng.integers(0, 4))],
                     "iseed": int(rng.integers(0, 2**31)), "cost": 8.0})
+    if tier == "thorough":
+        out.append({"kind": "suite", "cost": 400.0, "iseed": 0})
     return out
 
 
@@ -169,6 +171,10 @@ def _loader_case(case):
         elif p["entry"] == "multi":
             t2 = gen.render_box(shape, gen.make_blobs(rng, shape, sigma=(0.9, 1.2), r_sup=1.5))
             out = loader.align_multi_templates([tmpl, t2], max_shifts=ms_arg, alignment_model=Model).molecules
+        elif p["entry"] == "group-multi":
+            t2 = gen.render_box(shape, gen.make_blobs(rng, shape, sigma=(0.9, 1.2), r_sup=1.5))
+            grp = loader.groupby("g").align_multi_templates([tmpl, t2], max_shifts=ms_arg, alignment_model=Model)
+            out = Molecules.concat([ld.molecules for _, ld in grp]).sort("uid")
         else:
             grp = loader.groupby("g").align(tmpl, max_shifts=ms_arg, alignment_model=Model)
             parts = [ld.molecules for _, ld in grp]
@@ -196,6 +202,12 @@ def _loader_case(case):
 
 
 def run(case):
+    if case.params.get("kind") == "suite":
+        from vcheck.suite_run import run_suite_with_contracts
+
+        run_suite_with_contracts(case, ('K1',))
+        case.nontrivial("suite")
+        return
     from vcheck import instr
 
     if case.params["kind"] == "model":
